@@ -345,7 +345,11 @@ Checks that had to be strengthened because a seed was first missed or reported o
   which a value clause fails on the implementation – C17l; the twin with a wide retract is evaluated with the contact
   point just outside the approach range on purpose – which restored the detection of C17k that the new dataset kind
   had shifted away), C18 (whatever was accepted must be usable: advertised ancillary keys can be named and computed –
-  C18k), C19 (open-ended intervals `[-inf, x]`, `[x, inf]` as profile values – C19q).
+  C18k), C19 (open-ended intervals `[-inf, x]`, `[x, inf]` as profile values – C19q).  Re-running all seeds afterwards showed
+  that the larger pipeline catalogue had moved the random histories away from the one that used to give C06h (an empty
+  option dictionary silently replaced by the remembered options) its failing input; the pair oracle now also compares
+  the columns after every accepted request with those of a fresh curve given *that request* – the property's own
+  words – and not only with a fresh curve given the pipeline the curve says it stored.
 
 ### 9.6 Observations that are not findings
 
